@@ -180,12 +180,14 @@ def many_blocks(chk, quick):
             lines_ = sorted(d["range"]["start"]["line"] for d in diags)
             if r["outcome"] != "ok" or lines_ != [1 + 3 * i for i in range(n)]:
                 chk.violation("%d scripted blocks each returning a string: %d diagnostics" % (n, len(diags)), detail)
-        if len(traces) < (6 if quick else 40):
+        # (the trace specification's search grows quickly with the number of concurrently running tasks: the smaller
+        # runs are validated, under a time limit; a validation that runs out of time is inconclusive, see evidence)
+        if len(traces) < (6 if quick else 40) and n <= 24:
             evs = runtrace.read_events(os.path.join(tdir, "cli-%s.ndjson" % c["id"]))
             t = runtrace.run_trace(evs, r["exit"], "error" if r["outcome"] == "error" else "ok", bool(r.get("report")), False)
             if t:
                 traces[c["id"]] = t
-    for cid, (ok, diag, states, rc_) in runtrace.validate_many("TraceRun", traces, timeout=600).items():
+    for cid, (ok, diag, states, rc_) in runtrace.validate_many("TraceRun", traces, timeout=150).items():
         chk.traces += 1
         chk.states += states
         chk.transitions += states
